@@ -7,7 +7,7 @@ for d in sorted(glob.glob('/verif/seeded/C*-*')):
     m=json.load(open(d+'/meta.json')); rows.append((m['id'], m.get('caught_by_quick_check'), m.get('clauses_reported','')))
 n=len(rows); caught=sum(1 for r in rows if r[1]); late=sum(1 for i,_,_ in rows if 'initially missed' in desc[i][2] or 'at first' in desc[i][2])
 out=['### 7.1 Seeded changes vs checks','',
-f'{n} changes were written in eight rounds by fresh sub-agents that saw only the text of one property and a private worktree of `/repo` (nothing from `/verif`; from the',
+f'{n} changes were written in nine rounds (the ninth a short one: one change each for ten properties) by fresh sub-agents that saw only the text of one property and a private worktree of `/repo` (nothing from `/verif`; from the',
 'second round on they were additionally told which ideas had been tried, so that they would look elsewhere). Each was confirmed here in a scratch copy (`tools/confirm_seed.sh`: demo passes on',
 'the clean tree, fails with the change; builds with and without `-tags verif`; `go test ./message/... ./pubsub/... ./components/...` passes with the change) and is stored as',
 '`seeded/<id>/{patch.diff, demo, notes.md, meta.json}`. `tools/recheck_seeded.sh` re-runs all of them against the current checks (scratch copy + `VERIF_REPO`).',
